@@ -113,7 +113,9 @@ Print Assumptions c03_entry_model_eq_spec.
    unsafe.Pointer: the translation makes those 1024 words a PARAMETER (mem) and the theorem holds for every content of it,
    because setZero - proved here, for the loop in the source - clears all bmp_words words before the values are added.
    Iterators: n = i + 1 for the array iterator; Value panics outside 1 <= n <= len, which the statement says; an exhausted
-   bitmap iterator stops in end_iter.  BitmapIter.Value is stated with the uint wrap the code has (wrap 64). *)
+   bitmap iterator stops in end_iter.  BitmapIter.Value is stated with the uint wrap the code has (wrap 64).
+   Of RoaringBitmap.Add / Remove / Contains themselves only the leading declarations  high := uint16(num >> 16); low := uint16(num)
+   are translated (g_…_head): they are the model's hi / lo for every num; what follows goes through listz.SkipList and is not translated. *)
 Theorem c03_code_is_model :
   (forall fuel v x, len_ok v -> (length v < fuel)%nat ->
      g_search fuel (zl v) (Z.of_N x) = Ret (Z.of_N (search v (lenN v) x))) /\
@@ -165,7 +167,10 @@ Theorem c03_code_is_model :
           | Some (IBmp it') => (of_iter (words b) it', true)
           | _ => (of_iter (words b) (end_iter (words b) it), false)
           end)) /\
-  (forall b it, g_bitmapContainerIter_Value (of_iter (words b) it) = Ret (Z.of_N (inner_value (Bmp b) (IBmp it)))).
+  (forall b it, g_bitmapContainerIter_Value (of_iter (words b) it) = Ret (Z.of_N (inner_value (Bmp b) (IBmp it)))) /\
+  (forall num, g_RoaringBitmap_Add_head (Z.of_N num) = Ret (Z.of_N (hi num), Z.of_N (lo num))) /\
+  (forall num, g_RoaringBitmap_Remove_head (Z.of_N num) = Ret (Z.of_N (hi num), Z.of_N (lo num))) /\
+  (forall num, g_RoaringBitmap_Contains_head (Z.of_N num) = Ret (Z.of_N (hi num), Z.of_N (lo num))).
 Proof.
   exact (conj code_search (conj code_search_fuel (conj code_arrayContainer_Contains (conj code_arrayContainer_Remove
         (conj code_arrayContainer_Add (conj code_arrayContainer_Len (conj code_arrayContainer_Type
@@ -173,6 +178,7 @@ Proof.
         (conj code_Bitmap_Remove (conj code_Bitmap_add (conj code_Bits_Add (conj code_Bits_Remove (conj code_Bits_Len
         (conj code_bitmapContainer_Add (conj code_bitmapContainer_Remove (conj code_bitmapContainer_Contains
         (conj code_bitmapContainer_Len (conj code_bitmapContainer_Type (conj code_setZero (conj code_BitmapIter_Next
-        (conj code_BitmapIter_Value (conj code_bitmapContainerIter_Next code_bitmapContainerIter_Value))))))))))))))))))))))))).
+        (conj code_BitmapIter_Value (conj code_bitmapContainerIter_Next (conj code_bitmapContainerIter_Value
+        (conj code_Add_head (conj code_Remove_head code_Contains_head)))))))))))))))))))))))))))).
 Qed.
 Print Assumptions c03_code_is_model.
